@@ -36,10 +36,41 @@ func runC14(c *Ctx) {
 	r14_2(c, "R14.2")
 	r14_3(c, "R14.3")
 	r14_4(c, "R14.4")
+	r15_2(c, "R14.5")
 }
 
 func runC15(c *Ctx) {
 	r15_1(c, "R15.1")
+	r15_2(c, "R15.2")
+}
+
+// R15.2 / R14.5: an existing non-directory at the target is removed, never
+// kept (written through, truncated in place).
+func r15_2(c *Ctx, rule string) {
+	c.R.Rule(rule, "ensureEmptyFileTarget: when Lstat finds an existing non-directory every success return is preceded by a checked os.Remove of that path (the source replaces the old entry: no write-through, no in-place truncation of a shared inode)")
+	fn := c.Fn(rule, "copy.ensureEmptyFileTarget")
+	if fn == nil {
+		return
+	}
+	x := c.explorer(fn)
+	as := map[string]bool{}
+	for _, cl := range c.P.CallsTo(fn, "(io/fs.FileInfo).IsDir") {
+		if v, ok := cl.(*ssa.Call); ok && c.DerivesFrom(v.Call.Value, func(y ssa.Value) bool { return c.isCallValueTo(y, "os.Lstat", "os.Stat") }, 3) {
+			as[x.KeyAtEntry(v)] = false
+		}
+	}
+	n := 0
+	for _, cl := range c.P.CallsTo(fn, "os.Lstat", "os.Stat") {
+		if v, ok := cl.(*ssa.Call); ok {
+			as["("+v.Name()+"#1==nil)"] = true
+			n++
+		}
+	}
+	if n == 0 || len(as) < 2 {
+		c.R.Fail(rule, c.name(fn)+"/existing-entry-removed", c.P.Pos(fn.Pos()), "ensureEmptyFileTarget does not inspect the target")
+		return
+	}
+	c.ObSuccessNeeds(rule, c.name(fn)+"/existing-entry-removed", fn, nil, as, c.checkedCallPred("os.Remove"), "a checked os.Remove of the existing entry")
 }
 
 var allCreators = []string{"copy.(*copier).copyDirectory", "os.Link", "copy.copyFile", "os.Symlink", "copy.copyDevice"}
@@ -170,6 +201,21 @@ func r13_2(c *Ctx, rule string) {
 		oct := c.DerivesFrom(a[1], func(v ssa.Value) bool { return isFieldLoad(v, "copy.copier.mode") }, 6)
 		pn, isP := eng.Strip(a[0]).(*ssa.Parameter)
 		c.R.Check(srcMode && set && oct && isP && pn.Name() == "name", rule, c.siteName(call)+"/mode", c.pos(call), "mode is the source mode, the symbolic set applied to it, or the octal option", "the mode applied does not derive from {source mode, symbolic set, octal option}")
+	}
+	// the symbolic set is applied to the source mode itself: 'X' and friends
+	// look at the type bits
+	for _, call := range eng.Calls(fn) {
+		if !strings.HasSuffix(c.P.CalleeName(call), "dchapes-mode.Set).Apply") {
+			continue
+		}
+		a := call.Common().Args
+		arg := eng.Strip(a[len(a)-1])
+		mc, isCall := arg.(*ssa.Call)
+		ok := isCall && c.P.CalleeName(mc) == "(io/fs.FileInfo).Mode"
+		if ok {
+			_, ok = eng.Strip(mc.Call.Value).(*ssa.Parameter)
+		}
+		c.R.Check(ok, rule, c.siteName(call)+"/unmasked-source-mode", c.pos(call), "modeSet.Apply receives fi.Mode() itself", "the symbolic mode set is applied to something other than the source's full mode (e.g. a masked copy): rules that depend on the entry type, such as X for directories, misfire")
 	}
 	// special bits of the octal option
 	for _, e := range []struct {
